@@ -2,6 +2,7 @@ import PgVerif.Proofs.LRSound
 import PgVerif.Proofs.LineCol
 import PgVerif.Spec.Viable
 import PgVerif.Proofs.Viable
+import PgVerif.Proofs.LRNotEarly
 import PgVerif.Model.Decode
 /-!
 # C10 — rejections are SyntaxErrors at the first offending token
@@ -12,9 +13,12 @@ from the end of the shifted tokens arrives, and the shifted tokens (the stack)
 are token edges of the input chained from position 0 that derive the stack's
 symbols (`C10_lr_error_position`); reductions never move the position.
 `C10_linecol_inverse`: the reported (line, column) determines the position.
-That the position is never *early* (the shifted prefix plus the offending token
-is not viable) needs lookahead completeness of the table and is decided, on the
-explored scope, against the viable-prefix oracle `viableEnds` — which is itself
+That the position is never *early* is proved for the deterministic driver over a
+validated table (`C10_not_early_when_deterministic`): no token path of the input
+through a token starting at the reported position begins a sentence, whatever
+terminals one imagines after it. That it is not *late* (the tokens before it do
+begin a sentence) and the GLR positions are decided, on the explored scope,
+against the viable-prefix oracle `viableEnds` — which is itself
 proved sound and complete for every grammar and input once its charts saturate
 (`C10_viable_ends_correct`): it lists exactly the raw positions that are 0 or end a
 token path beginning a sentential form of the start symbol (`PrefixSeq`).
@@ -102,6 +106,21 @@ theorem C10_viable_ends_correct_on_decoded_data (len : Nat) (skips : Array Nat)
     (h : viableEnds g (Input.ofTables len skips ms) fuel = some l) (j : Nat) :
     j ∈ l ↔ j ≤ len ∧ (j = 0 ∨ PrefixSeq g (Input.ofTables len skips ms) [.nt g.start] 0 j) :=
   viableEnds_correct (Input.ofTables_ok len skips ms hsk) (Input.ofTables_mono len skips ms) fuel l h j
+
+/-- **Not early**: if the deterministic driver over a validated, conflict-free table reports a
+syntax error at `p`, then no token path of the input from 0 through a token `a` starting at `p`
+begins a sentence, whatever terminals `v` follow: the token at `p` really cannot extend a sentence
+prefix. -/
+theorem C10_not_early_when_deterministic (I : Nat → List LRV.VItem) (F : LRV.FirstData)
+    (hw : T.wf g = true) (hv : LRV.lrComplete g T I F = true)
+    (hT : detTableB T = true) (hL : lexDetB T inp = true)
+    (hfin : ∀ s, T.n ≤ s → T.cells s = [] ∧ T.finish s = []) (hin : InputOK inp) (hm : InputMono inp)
+    (lexDis : Bool) (fuel p : Nat)
+    (herr : parseLR g T inp { consumeInput := true, lexDis := lexDis } fuel = .syntaxError p)
+    (toks : List Tok) (a : Tok) (j : Nat) (v : List Nat)
+    (hpath : TokPath inp 0 (toks ++ [a]) j) (ha : a.s = p) :
+    ¬ Der g [.nt g.start] ((toks ++ [a]).map (·.term) ++ v) :=
+  fun hder => not_early hw hv (detOK_of_bool hT hL hfin hin) hin hm _ rfl fuel p herr toks a j v hpath ha hder
 
 /-- The reported line and column determine the position (string inputs). -/
 theorem C10_linecol_inverse (text : List Nat) (pos : Nat) (h : pos ≤ text.length) :
